@@ -8,6 +8,12 @@ Tab == [ dH1a |-> <<"H", 1>>, dH1b |-> <<"H", 1>>, dH2a |-> <<"H", 2>>, dP1a |->
 CSide(c) == Tab[c][1]
 CId(c) == Tab[c][2]
 
+NoAborts == {}
+\* scenario E: the peer gives up on one stream before writing its id; a clean pair on another id
+DialsE == {"dH1a", "dH2a"}
+AcceptsE == {"aP2a"}
+AbortsE == {"dH1a"}
+
 \* scenario A: id 1 abused host->plugin (two dials, one accept), the same numeric id used once
 \* in the other direction (the fresh pair).
 DialsA == {"dH1a", "dH1b", "dP1a"}
